@@ -67,6 +67,8 @@ def effect_events(ctx, fi, state_attrs, eff):
 
 
 def run(ctx):
+    from .iterables import single_pass_iterables as _single_pass
+    _single_pass(ctx, 'C16.R3', ('Recipe.uses',))
     model = ctx.model
     recipe = model.cls('Recipe')
     state_attrs = recipe_state_attrs(model)
